@@ -49,8 +49,19 @@ def _project_value(P, docs):
     sfields = [f for f, _ in P.structs.get('Source', [])]
     if sfields[:3] != ['file_id', 'data', 'library']: raise Unsupported('layout of Source: %r' % sfields)
     srcs = VecV([Agg('()', [Agg('FileId', [Str(u[len('file://'):])]), Agg('Source', [Agg('FileId', [Str(u[len('file://'):])]), Str(t), none()])]) for u, t in docs.items()])
-    inner = Ref(Cell(Agg('project::FileBackedProject', [srcs])))
-    return Agg('LspProject', [inner])
+    return Ref(Cell(Agg('project::FileBackedProject', [srcs])))
+
+def _new_server(M, P, docs):
+    """LspServer { sender, project: LspProject::new(Box<FileBackedProject holding docs>) } built by the real constructor, so that
+    every field the tree's LspProject has is initialised the way the tree initialises it"""
+    k_new = [k for k in P.items if k[0] == 'ironplcc' and re.fullmatch(r'lsp_project::<impl at [^>]*>::new', k[1])]
+    if len(k_new) != 1: raise Unsupported('LspProject::new: %d candidates' % len(k_new))
+    proj = M.call_fn(k_new[0], [_project_value(P, docs)])
+    return Ref(Cell(LSP.mkstruct(P, 'LspServer', sender=Ref(Cell(Opaque('sender'))), project=proj)))
+
+def _wrapped(M, P, server):
+    fs = [f for f, _ in P.structs.get('LspProject', [])]; sf = [f for f, _ in P.structs.get('LspServer', [])]
+    return M.deref(M.deref(server).f[sf.index('project')].f[fs.index('wrapped')])
 
 def _notif(P, kind, uri, version, texts):
     if kind == 'open':
@@ -72,17 +83,27 @@ def _k3_job(job):
     M = Machine(P, stubs=W.stubs())
     def entry(M):
         W.parse_ok.clear(); W.an_ok.clear(); W.env.sent.clear()
-        server = Ref(Cell(Agg('LspServer', [Ref(Cell(Opaque('sender'))), _project_value(P, {})])))
-        outs = []
-        for n, (kind, ui, texts) in enumerate(hist):
-            W.env.json_ok.clear(); W.env.sent.clear()
-            name, params = _notif(P, kind, URIS[ui], 10 + n, texts)
-            W.env.params = {name: params}
-            W.env.json_ok = {name: True, 'Exit': True}
-            notif = LSP.mkstruct(P, 'Notification', method=Str('ASSOC:%s:METHOD' % name), params=Opaque('json'))
-            M.call_fn(key, [server, Ref(Cell(notif))])
-            outs.append(list(W.env.sent))
-        return server, outs
+        def play(history):
+            server = _new_server(M, P, {}); outs = []
+            for n, (kind, ui, texts) in enumerate(history):
+                W.env.json_ok.clear(); W.env.sent.clear()
+                name, params = _notif(P, kind, URIS[ui], 10 + n, texts)
+                W.env.params = {name: params}
+                W.env.json_ok = {name: True, 'Exit': True}
+                notif = LSP.mkstruct(P, 'Notification', method=Str('ASSOC:%s:METHOD' % name), params=Opaque('json'))
+                M.call_fn(key, [server, Ref(Cell(notif))])
+                outs.append(list(W.env.sent))
+            return server, outs
+        server, outs = play(hist)
+        # reference run on the same path (same uninterpreted parse/analysis outcomes): a fresh server that is only ever told the current contents
+        cur = {}
+        for k, u, t in hist:
+            if t: cur[u] = t[-1]
+        lu = hist[-1][1]; fresh = None
+        if lu in cur:
+            fh = [('open', u, [t]) for u, t in cur.items() if u != lu] + [('open', lu, [cur[lu]])]
+            fresh = play(fh)[1][-1]
+        return server, outs, fresh
     def on_path(M, pr):
         part.paths += 1
         if pr.inconclusive: part.inconc(pr.inconclusive); return
@@ -93,7 +114,7 @@ def _k3_job(job):
             last = hist[-1]
             role = 'C11/K3/panic/didChange-without-content-changes' if (last[0] == 'change' and len(last[2]) == 0) else 'C11/K3/panic'
             part.add(role, 'the server panics while handling %s: %s' % (hdesc[-1], pr.panic.msg[:70]), wit, ('lsp_history', (hdesc,))); return
-        server, outs = pr.result
+        server, outs, fresh = pr.result
         # reference: current contents after the whole history (every change event carries the full text; they apply in order)
         cur = {}
         for k, u, t in hist:
@@ -108,7 +129,7 @@ def _k3_job(job):
         if got_uri != uri or not (isinstance(got_ver, EnumV) and got_ver.disc == 1 and simp(got_ver.f[0]) == version):
             part.add('C11/K3/publish-uri-or-version', 'publishDiagnostics carries uri %s / version %r instead of %s / %d' % (got_uri, got_ver, uri, version), wit, ('lsp_history', (hdesc,)))
         # the project must hold exactly the current contents
-        proj = M.deref(M.deref(server).f[1].f[0])
+        proj = _wrapped(M, P, server)
         held = {('file://' + M.deref(e.f[0].f[0]).conc()): M.deref(e.f[1].f[1]).conc() for e in proj.f[0].items}
         if held != cur:
             part.add('C11/K1/stale-contents/%s' % _hrole(hist), 'after the history %s the server holds %s but the current contents are %s' % (hdesc, held, cur), wit, ('lsp_history', (hdesc,)))
@@ -123,6 +144,12 @@ def _k3_job(job):
                 for lt in t[4:].split('|'):
                     _, f, data = lt.split(':', 2)
                     if cur.get('file://' + f) != data: part.add('C11/K2/stale-diagnostics/%s' % _hrole(hist), 'published diagnostic %s was computed from text that is no longer current (%s)' % (t, cur), wit, ('lsp_history', (hdesc,)))
+        if fresh is not None:
+            fp = [M.deref(x) for x in fresh]; fp = [x.f[0] for x in fp if isinstance(x, EnumV) and x.name == 'Message' and x.disc == 2]
+            ftags = [M.deref(M.deref(d).f[0]).conc() for d in fp[0].f[1].f[1].items] if len(fp) == 1 else None
+            if ftags is None or sorted(ftags) != sorted(tags):
+                part.add('C11/K2/differs-from-fresh-server/%s' % _hrole(hist), 'after the history %s the diagnostics published for %s are %s, but a server that is only told the current contents %s publishes %s' % (hdesc, uri, tags, cur, ftags),
+                         wit, ('lsp_history', (hdesc,)))
         if not part.findings and len(part.validate) < 1 and len(hist) == 2: part.validate.append(('lsp_history', (hdesc,)))
         if len(part.samples) < 1: part.samples.append({'history': hdesc, 'published': tags, 'held': held})
     M.explore(entry, on_path)
@@ -176,7 +203,8 @@ def k3(ctx, kr):
     steps = [('open', 0, ['T1']), ('open', 0, ['T2']), ('open', 1, ['T1']), ('change', 0, ['T2']), ('change', 0, ['T1', 'T2']), ('change', 1, ['T3']), ('change', 0, [])]
     hists = [[s] for s in steps] + [[a, b] for a in steps[:5] for b in steps]
     if ctx.tier == 'thorough': hists += [[a, b, c] for a in steps[:4] for b in steps[:6] for c in steps]
-    kr.bounds = 'every notification history of length 1..%d over 2 URIs x 3 texts (didOpen, didChange with 0, 1 or 2 full-text changes); parse and analysis outcomes are uninterpreted functions of the texts' % (3 if ctx.tier == 'thorough' else 2)
+    else: hists += [[a, b, c] for a in (steps[0], steps[1]) for b in (steps[2], steps[5]) for c in (steps[0], steps[1], steps[3], steps[4], steps[6])]
+    kr.bounds = 'every notification history of length 1..2%s over 2 URIs x 3 texts (didOpen, didChange with 0, 1 or 2 full-text changes); parse and analysis outcomes are uninterpreted functions of the texts; reference = a fresh server told only the current contents, on the same path' % (' and 3' if ctx.tier == 'thorough' else ' and 20 histories of length 3 (open A; touch B; touch A again)')
     for part in par_map(_k3_job, [(h,) for h in hists]): merge_part(kr, part)
     P = ctx.program(CR)
     kr.functions = fn_paths(P, getattr(kr, '_enc', set()))
